@@ -244,8 +244,10 @@ def wl_random(ctx, rng, case_no):
         d = rng.randint(0, 30)
         g = max(0, min(255, r + rng.randint(-d, d)))
         b = max(0, min(255, r + rng.randint(-d, d)))
-    route = rng.randrange(4)
-    if route == 0:
+    route = rng.randrange(5)
+    if route == 4:
+        c = Color.from_rgb(float(r), g, b + 0.5) if rng.random() < 0.5 else Color.from_rgb(r, g, b)   # floats are truncated
+    elif route == 0:
         c = _triplet_color(api, r, g, b)
     elif route == 1:
         c = Color.parse("#%02x%02x%02x" % (r, g, b))
